@@ -143,6 +143,7 @@ type c06Codec struct {
 	fresh  func() c06Obj
 	proj   func(c06Obj) interface{}
 	random func(*rand.Rand) interface{}
+	reused c06Obj // one receiver kept across cases: decoding into an object that already holds a value
 }
 
 func c06Def[X any](site string, routes func(*X) []c06Route, fresh func() c06Obj, proj func(c06Obj) *X, random func(*rand.Rand) *X) *c06Codec {
@@ -619,6 +620,29 @@ func c06Types(c *h.Ctx) error {
 						d += " (built via " + rt.name + ")"
 					}
 					c.Fail(cd.site+".Unmarshal", asp, fmt.Sprintf("%s; suffix %s", d, h.Hex(suf)), c06SampleOf(ln.T, ln.V, b, suf))
+				}
+			}
+			// P (history): decoding into a receiver that already holds the value of the PREVIOUS case must give the same
+			// fields and consumed count as decoding into a fresh one (only judged where the fresh decode was right)
+			if len(base) == 0 && ln.K != "w" {
+				if cd.reused == nil {
+					cd.reused = cd.fresh()
+				}
+				in := append([]byte{}, b...)
+				var n int
+				var uerr error
+				if p := h.Guard(func() { n, uerr = cd.reused.Unmarshal(in) }); p != "" || uerr != nil {
+					c.Fail(cd.site+".Unmarshal", "reused-receiver:error", fmt.Sprintf("decoding into a receiver that held the previous value failed (%s %v) although a fresh receiver decodes it", p, uerr), c06SampleOf(ln.T, ln.V, b, nil))
+					cd.reused = cd.fresh()
+				} else {
+					c.Exec(1)
+					if n != len(b) {
+						c.Fail(cd.site+".Unmarshal", "reused-receiver:consumed", fmt.Sprintf("reported %d bytes, encoding occupies %d", n, len(b)), c06SampleOf(ln.T, ln.V, b, nil))
+					}
+					if fs := c06Diff(reflect.ValueOf(x), reflect.ValueOf(cd.proj(cd.reused)), ""); len(fs) > 0 {
+						xj, _ := json.Marshal(cd.proj(cd.reused))
+						c.Fail(cd.site+".Unmarshal", "reused-receiver:roundtrip", fmt.Sprintf("fields %v differ when decoding into a receiver that held the previous value: %s", fs, string(xj[:min(len(xj), 200)])), c06SampleOf(ln.T, ln.V, b, nil))
+					}
 				}
 			}
 			// D: the named sub-fields of the pipe status word
